@@ -341,7 +341,78 @@ mod imp {
         StepS { r: r.into(), ok: true, fires: vec![] }
     }
 
+    /// "Batch" runs (n = 999, or a Vec source longer than 12): source lengths next to the sizes at which third-party and
+    /// cooperative machinery changes behaviour (futures-buffered grows its slot map at 32 / 96, budgets of 32 / 64 polls,
+    /// bit-set blocks), every closure future pending once so that dozens are in flight, and all owed wake-ups delivered
+    /// together (`settle_all`), so that one poll of the driver sees dozens of completions back to back - with at most one
+    /// failure, at any position among them.  A purely random script never gets there.
+    fn gen_batch(rng: &mut Rng, id: String, cont: &str, n0: usize, profile: &str) -> Vector {
+        const EDGES: [usize; 14] = [15, 16, 17, 31, 32, 33, 34, 63, 64, 65, 66, 95, 96, 97];
+        let n = if n0 == 999 { EDGES[rng.below(EDGES.len() as u64) as usize] } else { n0 };
+        let mut stack: Vec<Value> = vec![];
+        match rng.below(8) {
+            0 => stack.push(json!("map")),
+            1 => stack.push(json!("enumerate")),
+            2 => {
+                let l = [31u64, 32, 33, 64, 65][rng.below(5) as usize];
+                stack.push(json!(["limit", l]))
+            }
+            3 => {
+                let t = [31u64, 32, 33, 64][rng.below(4) as usize];
+                stack.push(json!(["take", t]))
+            }
+            _ => {}
+        }
+        let term = match profile {
+            "for_each" => "for_each",
+            "try" => ["try_for_each", "collect_result"][rng.below(2) as usize],
+            "collect" => "collect",
+            _ => ["for_each", "try_for_each", "collect", "collect_result"][rng.below(4) as usize],
+        }
+        .to_string();
+        let fallible = term == "try_for_each" || term == "collect_result";
+        // source: j items at once, one Pending (woken with everything else), the rest at once
+        let j = match rng.below(4) {
+            0 => n,
+            1 => n.saturating_sub(1),
+            _ => std::cmp::min(n, EDGES[rng.below(EDGES.len() as u64) as usize]),
+        };
+        let mut steps = vec![];
+        for i in 0..n {
+            if i == j {
+                steps.push(step("p"));
+            }
+            steps.push(step("s"));
+        }
+        if j >= n && rng.chance(50) {
+            steps.push(step("p"));
+        }
+        let hint = if rng.chance(50) { 0 } else { 1 + rng.below(3) as u8 };
+        let mut scripts = vec![ScriptS { steps, tail: "done".into(), tail_ok: true, hint }];
+        let nwork = n * 2 + 2;
+        // at most one failure, at any position
+        let bad = if fallible && rng.chance(75) { 1 + rng.below(std::cmp::min(nwork, n + 1) as u64) as usize } else { 0 };
+        let eager_pct = [0u64, 0, 10, 50][rng.below(4) as usize];
+        for c in 1..=nwork {
+            let steps = if rng.chance(eager_pct) { vec![] } else { vec![step("p")] };
+            scripts.push(ScriptS { steps, tail: "done".into(), tail_ok: c != bad, hint: 0 });
+        }
+        let mut cmds = vec![json!(["poll"])];
+        if profile == "drop" || rng.chance(8) {
+            cmds.push(json!(["settle_all"]));
+            cmds.insert(1 + rng.below(2) as usize, json!(["drop"]));
+        } else {
+            cmds.push(json!([if rng.chance(85) { "settle_all" } else { "settle" }]));
+        }
+        let (_take, limit) = effective(&stack);
+        Vector { id, fam: "co".into(), cont: cont.into(), n, scripts, cmds, x: -1, limit, stack, term, src: cont.into() }
+    }
+
     pub fn gen_vector(rng: &mut Rng, id: String, cont: &str, n: usize, profile: &str) -> Vector {
+        if (n == 999 || n > 12) && profile != "panic" && profile != "threads" {
+            return gen_batch(rng, id, cont, n, profile);
+        }
+        let n = if n == 999 { 6 } else { n };
         // stack
         let depth = rng.below(4) as usize;
         let mut stack: Vec<Value> = vec![];
